@@ -19,7 +19,14 @@
                                       concurrent call of the instance had just failed
                              "ctx"    the call was made with a cancelled context and erred
      recover{i}            the driver saw (white-box, at a moment with no call in flight) that the
-                           instance's monitor switched it back to the store
+                           instance's monitor switched it back to the store (carries `waited`, the
+                           real ms the driver waited for that: informative, not read here)
+     fallback{i,ms}        the driver found (white-box, store up, no call in flight) instance i still in
+                           fallback mode while its OWN client - not the limiter's - had been answered
+                           every PING for at least ms of real time without a gap (only the time between
+                           two successful probes at most 150 ms apart is counted, so a stalled test
+                           process earns nothing).  Accepted while ms < RecoverBound (Linger); for
+                           ms >= RecoverBound no action accepts it: the trace is rejected.
      stuck{i}              the driver saw (white-box, under rescueLock, store up, no call in flight)
                            instance i in fallback mode WITHOUT a monitor: nothing can switch it
                            back any more, it will answer locally for ever although the store is
@@ -78,6 +85,7 @@ Answer(path, i, t, n, ok) ==
 
 TAllow   == IsEvent("allow") /\ Answer(E.path, E.i, E.t, E.n, E.ok) /\ Quiet
 TRecover == IsEvent("recover") /\ Recover(E.i) /\ Quiet
+TFallback == IsEvent("fallback") /\ Linger(E.i, E.ms) /\ Quiet
 TFault   == IsEvent("fault") /\ Fault(E.mode) /\ Quiet
 TAdv     == IsEvent("adv") /\ E.d >= 0 /\ clk' = clk + E.d /\ UNCHANGED <<bvars, pend>>
 
@@ -129,7 +137,7 @@ Passive == l <= Len(Trace) /\ E.e = "callStart"
 TInit == BInit({}, 1, 1) /\ l = 1 /\ clk = 0 /\ pend = <<>>
 TNext ==
   IF Passive THEN TCallStart
-  ELSE \/ TReset \/ TAllow \/ TRecover \/ TFault \/ TAdv \/ TCallEnd
+  ELSE \/ TReset \/ TAllow \/ TRecover \/ TFallback \/ TFault \/ TAdv \/ TCallEnd
        \/ \E c \in DOMAIN pend : Lin(c) \/ LinFail(c)
 TSpec == TInit /\ [][TNext]_tvars
 
